@@ -42,6 +42,10 @@ func rewrites() []rewrite {
 		}, nil},
 		{"single-quotes", func(r *Rng) PrintOpts { return PrintOpts{Quote: '\''} }, nil},
 		{"self-closing", func(r *Rng) PrintOpts { return PrintOpts{SelfClose: true} }, nil},
+		{"tag-space", func(r *Rng) PrintOpts {
+			return PrintOpts{TagSpace: func() string { return r.Pick([]string{"", "", " ", "  ", "\n", "\t", "\r\n "}) }, SelfClose: r.Bool(1, 2)}
+		}, nil},
+		{"tag-space-all", func(r *Rng) PrintOpts { return PrintOpts{TagSpace: func() string { return " " }} }, nil},
 		{"leading-comment", func(r *Rng) PrintOpts { return PrintOpts{} }, func(r *Rng) string {
 			return r.Pick(leadingComments)
 		}},
@@ -66,7 +70,7 @@ func renderSeq(src string, opts ...mjml.RenderOption) (string, string) {
 }
 
 func runC12(res *Result, tier string, seed int64, replay string) {
-	res.Rule = "metamorphic pairs: documents = seeded grammar documents (whole component grammar, heads with attributes / classes / fonts / styles) + every fixture for the debug rewrite; rewrites of the SOURCE: indentation + LF, indentation + CRLF (between structural elements only), attribute order within every tag, single quotes, self-closing empty elements, comments / blank lines / a byte-order mark / an XML declaration / a doctype before the root (all of them, exhaustively, on documents whose content is cut out of the source by position: mj-raw in head and body, mj-text, mj-table, mj-button, mj-style), and random combinations; outputs must be equal up to whitespace between tags (ids α-renamed), errors identical; rewrite of the OPTIONS: WithDebugTags output minus data-mj-debug-* attributes must equal the normal output byte for byte. HTMLTag correspondence: seeded operation lists on the real html.HTMLTag vs the Lean byte-exact model (driver `tag`). Non-trivial = document with ≥3 elements carrying ≥2 attributes; distinct by (document, rewrite)"
+	res.Rule = "metamorphic pairs: documents = seeded grammar documents (whole component grammar, heads with attributes / classes / fonts / styles) + every fixture for the debug rewrite; rewrites of the SOURCE: indentation + LF, indentation + CRLF (between structural elements only), attribute order within every tag, single quotes, self-closing empty elements, white space inside tags (before '>' and '/>', around '=', between attributes, in end tags), comments / blank lines / a byte-order mark / an XML declaration / a doctype before the root (all of them, exhaustively, on documents whose content is cut out of the source by position: mj-raw in head and body, mj-text, mj-table, mj-button, mj-style), and random combinations; outputs must be equal up to whitespace between tags (ids α-renamed), errors identical; rewrite of the OPTIONS: WithDebugTags output minus data-mj-debug-* attributes must equal the normal output byte for byte. HTMLTag correspondence: seeded operation lists on the real html.HTMLTag vs the Lean byte-exact model (driver `tag`). Non-trivial = document with ≥3 elements carrying ≥2 attributes; distinct by (document, rewrite)"
 	n := 250
 	if tier == "thorough" {
 		n = 8000
